@@ -3,7 +3,7 @@ CONSTANTS
   Impls = {"full", "fft"}
   Bands = {1, 2, 3, 4, 5, 6}
   AmpSpecs = {"const", "func", "scalarfunc", "rayleigh"}
-  Uniqs = {1, 2, 3}
+  Uniqs = {1, 2, 3, 25}
   Lengths = {16, 33}
   RmsModes = {"rms", "TR"}
   Windows <- WindowsMC
